@@ -789,6 +789,51 @@ func run(r *evid.Run) {
 	}
 	r.Set("work_items", len(items))
 
+	// Names that do not exist as filterable elements (unknown names, and names of members that
+	// cannot be filtered: regular fields, oneofs, enum values): the documented contract is an error
+	// wrapping ErrImageFilterTypeNotFound, alone or next to an existing name, as include or exclude.
+	for _, bi := range images {
+		bogus := []string{"no.such.Type", bi.names[len(bi.names)-1] + "x"}
+		for _, e := range bi.model.El {
+			if e.Kind == kMsg && len(e.Fields) > 0 && !isWKT(e.File) {
+				bogus = append(bogus, e.Name+"."+e.Fields[0].Name)
+			}
+		}
+		sort.Strings(bogus)
+		c, err := newItemCtx(bi, &stats{m: map[string]int{}})
+		if err != nil {
+			r.Incomplete(err.Error())
+			continue
+		}
+		for _, b := range bogus {
+			for _, other := range append([]string{""}, bi.names...) {
+				for _, asInclude := range []bool{true, false} {
+					fc := filterCase{Image: bi.spec.Name}
+					if asInclude {
+						fc.Include = []string{b}
+						if other != "" {
+							fc.Exclude = []string{other}
+						}
+					} else {
+						fc.Exclude = []string{b}
+						if other != "" {
+							fc.Include = []string{other}
+						}
+					}
+					if other == "" && bi.model.isName(b) {
+						continue
+					}
+					r.Eval(1)
+					if fnd, _, _, _ := c.evalCase(&fc); fnd != nil {
+						r.Violate(fnd.Sig, fnd.What, fc)
+					} else {
+						r.Add("clause_not_found_checked", 1)
+					}
+				}
+			}
+		}
+	}
+
 	var mu sync.Mutex
 	total := map[string]int{}
 	// Violations are collected first and reported at the end, so that the case written to the
